@@ -587,7 +587,9 @@ CLASS_FEATURES: dict = {
     "C11.construct": ("op", "style", "cause", "kind", "case"),
     "C11.object_construct": ("op", "style", "cause", "case"),
     "C11.split": ("op", "kind", "form"),
-    "C11.nested": ("source", "w", "fc1", "fc2", "op", "kind"),
+    # nested navigation: nb = a bracket access whose base holds another bracket access; else the wrapper, the conversion
+    # applied to the inner path (ic) and on top of the outer path (oc), the kinds of the inner value and of the result
+    "C11.nested": ("nb", "w", "ic", "oc", "xkind", "kind"),
 }
 
 
@@ -1450,6 +1452,18 @@ NEST_WRAPPERS = [
 ]
 
 
+_CONV = {"raw": "none", "varchar": "cast", "string": "cast", "int": "cast", "float": "cast", "number": "cast", "boolean": "cast",
+         "trim": "trim", "upper": "cased", "lower": "cased", "array_size": "array_size"}  # fmt: skip
+
+
+def nest_feats(wrapper, form1, form2, o, x, tgt):
+    """class features of one nested expression (input shape only)"""
+    wid, _tpl, inner, _ref, _fam, placement, _syns = wrapper
+    if placement == "inline" and formclass_ops(form1) == "b" and formclass_ops(form2) in ("b", "b1:p"):
+        return {"nb": "bracket-in-bracket-base"}
+    return {"w": wid, "ic": _CONV[inner], "oc": _CONV[o], "xkind": J.kind_of(x), "kind": J.kind_of(tgt)}
+
+
 def _nest_place(placement, wsql, cond=None, single=False):
     """-> (head, leading columns, tail, source text of the outer path) for a statement over table jn"""
     where = "" if single else f" where id in (select id from kk where {cond})"
@@ -1558,7 +1572,8 @@ def work_nest(item, acc, tier):
                     sig.append((i, rr[0], rr[1]))
                     if exp is not None and exp is not J.MISSING:
                         acc.nontrivial(("nest", wid, p1, sy1, p2, sy2, o, canon(docs[i])))
-                    st = stats.setdefault(J.kind_of(tgt), [0, 0, None])
+                    fk = tuple(sorted(nest_feats(wrapper, form1, form2, o, xs[i], tgt).items()))
+                    st = stats.setdefault(fk, [0, 0, None])
                     st[0] += 1
                     if not _judge(OPS[o]["mode"], exp, rr):
                         st[1] += 1
@@ -1571,11 +1586,10 @@ def work_nest(item, acc, tier):
                             )
                 acc.count("evaluations", len(ids))
                 acc.obs(("nest", wid, p1, sy1, p2, sy2, o, sig))
-                for kind in sorted(stats):
-                    n, nfail, example = stats[kind]
-                    acc.outcome(("nest", wid, o, kind, "fail" if nfail else "ok"))
-                    feats = {"source": "col", "w": wid, "fc1": formclass(form1), "fc2": formclass_ops(form2), "op": o, "kind": kind}
-                    _record(acc, "C11.nested", feats, n, nfail, example)
+                for fk in sorted(stats):
+                    n, nfail, example = stats[fk]
+                    acc.outcome(("nest", wid, o, fk, "fail" if nfail else "ok"))
+                    _record(acc, "C11.nested", dict(fk), n, nfail, example)
     if wi % 5 == 0 and pi == 0:
         acc.sample({"mode": "nest", "wrapper": tpl, "inner_path": list(p1), "documents": len(docs), "one_document": docs[1],
                     "some_expressions": [OPS[o]["tpl"].format(x=_render(tpl.format(X=_render("v", p1, "colon")[0], V="v"), p2, sy2)[0])
@@ -1608,7 +1622,7 @@ def nestlit_cells(doc, p1, tier):
                     continue
                 cells.append({"expr": OPS[o]["tpl"].format(x=_render(wsql, p2, sy2)[0]), "mode": OPS[o]["mode"], "exp": exp, "clause": "C11.nested",
                               "deps": [base], "key": ("nestlit", canon(doc), wid, sy1, p2, sy2, o),
-                              "feats": {"source": "lit", "w": wid, "fc1": formclass(form1), "fc2": formclass_ops(form2), "op": o, "kind": J.kind_of(tgt)}})  # fmt: skip
+                              "feats": dict(nest_feats(wrapper, form1, form2, o, x, tgt), op=o)})  # fmt: skip
     return cells
 
 
